@@ -284,7 +284,9 @@ func twinFault(t []string) core.Result {
 		return ret("c15:body-fault-introduced:"+logger, "%s: the unlogged twin is forwarded complete, the logged message broken off (Write error %v)", what, werrA)
 	case !bytes.Equal(oa.body, ob.body):
 		if bytes.HasPrefix(ob.body, oa.body) {
-			return ret("c15:body-fault-consumed-prefix-not-forwarded", "%s: the unlogged twin forwards %d body bytes before it breaks off, the message logged by %s only %d (the logger consumed them)",
+			// (the state of the code before /repo 5291428; its old known-finding sig is not reused, so
+			// that a regression is reported as a violation whatever known_findings.json says)
+			return ret("c15:body-fault-bytes-lost:"+logger, "%s: the unlogged twin forwards %d body bytes before it breaks off, the message logged by %s only %d (the logger consumed them)",
 				what, len(ob.body), logger, len(oa.body))
 		}
 		return ret("c15:forwarded-differs:"+logger, "%s: body bytes forwarded before the break differ (%d vs %d bytes)", what, len(oa.body), len(ob.body))
